@@ -780,9 +780,9 @@ pub fn run(ctx: &Ctx, rep: &Report) {
     run_in_children(ctx, rep, "readers-trunc", &tr, nproc, false);
 
     // G1/G2 random + structured mutations, shrinking in-process for slices.
-    run_prop(ctx, rep, "slices-g1g2", t.pick(30_000, 600_000), &|| case_g1g2(), &check_slices);
-    run_prop(ctx, rep, "slices-hdr", t.pick(30_000, 600_000), &|| case_hdr(), &check_slices);
-    let n = t.pick(12_000, 200_000);
+    run_prop(ctx, rep, "slices-g1g2", t.pick(30_000, 4_000_000), &|| case_g1g2(), &check_slices);
+    run_prop(ctx, rep, "slices-hdr", t.pick(30_000, 4_000_000), &|| case_hdr(), &check_slices);
+    let n = t.pick(12_000, 600_000);
     let g = sample_cases(ctx.sub_seed("readers-g1g2", 0), n, &case_g1g2());
     run_in_children(ctx, rep, "readers-g1g2", &g, nproc, false);
     let g = sample_cases(ctx.sub_seed("readers-hdr", 0), n, &case_hdr());
